@@ -22,8 +22,8 @@ Theorem C18_find_related_is_tree_refuted : exists h c n,
 Proof. exists h_chain, c_mid, n_below. exact find_related_refuted. Qed.
 Print Assumptions C18_find_related_is_tree_refuted.
 
-(* the path heuristic is the same-resource-prefix relation when no two segments differ only in trailing s
-   characters and every identifier segment resolves *)
+(* the path heuristic (removesuffix rule, e735a769) is the same-resource-prefix relation when no two compared segments
+   differ only in one trailing s and every identifier segment resolves *)
 Theorem C18_prefix_is_resource_prefix_partial : forall lp lv rp rv,
   prefix_region lp lv rp rv = true -> is_prefix lp lv rp rv = Some (resource_prefix lp lv rp rv).
 Proof. exact prefix_partial. Qed.
@@ -35,11 +35,19 @@ Theorem C18_prefix_lenient : forall lp lv rp rv,
 Proof. exact prefix_lenient. Qed.
 Print Assumptions C18_prefix_lenient.
 
-(* /clas/{id} counts as a prefix of /class/{id} *)
+(* /cla/{id} still counts as a prefix of /clas/{id}: one plural s is tolerated (F7) *)
 Theorem C18_prefix_is_resource_prefix_refuted : exists lp lv rp rv,
   is_prefix lp lv rp rv = Some true /\ resource_prefix lp lv rp rv = false.
-Proof. exists s_clas_id, [(s_id, s_one)], s_class_id, [(s_id, s_one)]. exact prefix_refuted. Qed.
+Proof. exists s_cla_id, [(s_id, s_one)], s_clas_id, [(s_id, s_one)]. exact prefix_refuted. Qed.
 Print Assumptions C18_prefix_is_resource_prefix_refuted.
+
+(* SENTINEL for the repaired finding F3: the rstrip rule (every trailing s stripped) takes /clas/{id} for a prefix of
+   /class/{id}; the code as it is and the reference do not, and the pair is inside prefix_region *)
+Theorem C18_prefix_rstrip_sentinel_refuted : exists lp lv rp rv,
+  is_prefix_rstrip lp lv rp rv = Some true /\ is_prefix lp lv rp rv = Some false /\
+  resource_prefix lp lv rp rv = false /\ prefix_region lp lv rp rv = true.
+Proof. exists s_clas_id, [(s_id, s_one)], s_class_id, [(s_id, s_one)]. exact prefix_rstrip_sentinel_refuted. Qed.
+Print Assumptions C18_prefix_rstrip_sentinel_refuted.
 
 (* use_after_free reports exactly when the property text requires it (and then the text allows it), as long as
    every DELETE answered like its parent and the path heuristic is exact *)
@@ -65,12 +73,20 @@ Theorem C18_uaf_incomplete_refuted : exists h c st,
 Proof. exists h_missed, c_missed, 200. exact uaf_incomplete_refuted. Qed.
 Print Assumptions C18_uaf_incomplete_refuted.
 
-(* POST /cla 201 -> DELETE /clas/1 204 -> GET /class/1 200: accused through the path heuristic alone *)
+(* POST /cla 201 -> DELETE /cla/1 204 -> GET /clas/1 200: accused through the plural tolerance alone (F7) *)
 Theorem C18_uaf_prefix_refuted : exists h c st,
   wf h = true /\ In c h /\ is_last h c = true /\ delete_agrees_with_parent h = true /\
   reported (use_after_free h c st) = true /\ uaf_allowed h c st = false.
 Proof. exists h_clas, c_clas, 200. exact uaf_refuted_prefix. Qed.
 Print Assumptions C18_uaf_prefix_refuted.
+
+(* ... while POST /cla 201 -> DELETE /clas/1 204 -> GET /class/1 200 (accused before e735a769) satisfies every region
+   hypothesis and passes *)
+Theorem C18_uaf_class_not_accused : exists h c,
+  wf h = true /\ In c h /\ is_last h c = true /\ delete_agrees_with_parent h = true /\
+  prefix_region_all h c = true /\ use_after_free h c 200 = Pass /\ uaf_allowed h c 200 = false.
+Proof. exists h_class, c_class. exact uaf_class_not_accused. Qed.
+Print Assumptions C18_uaf_class_not_accused.
 
 (* the hypotheses of C18_uaf_partial hold for the canonical create - delete - get sequence, which is reported *)
 Theorem C18_uaf_hypotheses_satisfiable : exists h c,
